@@ -482,8 +482,9 @@ func (h *httpServerHandler) handlePostResponse(ctx context.Context, w http.Respo
 		return
 	}
 
-	// Deliver response using responseManager.
-	if h.responseManager.DeliverResponse(requestIDStr, responseMessage) {
+	// Deliver response using responseManager. Pending requests are keyed by session as well: an
+	// answer is only accepted from the session the request was sent to.
+	if h.responseManager.DeliverResponse(pendingRequestKey(sessionID, requestIDStr), responseMessage) {
 		h.logger.Debugf("Successfully delivered response for request ID: %v", response.ID)
 	} else {
 		h.logger.Debugf("Received response for unknown request ID: %v", response.ID)
@@ -772,7 +773,7 @@ func (h *httpServerHandler) SendRequest(ctx context.Context, sessionID string, r
 	}
 
 	// Register request and get response channel.
-	requestIDStr := requestIDKey(request.ID)
+	requestIDStr := pendingRequestKey(sessionID, requestIDKey(request.ID))
 	responseChan := h.responseManager.RegisterRequest(requestIDStr)
 	defer h.responseManager.UnregisterRequest(requestIDStr)
 
@@ -822,6 +823,12 @@ func (h *httpServerHandler) isValidPath(requestPath string) bool {
 		return true
 	}
 	return requestPath == h.serverPath
+}
+
+// pendingRequestKey is the key of a server-to-client request in the response manager: the
+// request id alone is guessable (a small counter), so it is qualified by the session.
+func pendingRequestKey(sessionID, requestID string) string {
+	return sessionID + "/" + requestID
 }
 
 // responseManager manages pending requests and their response channels.
